@@ -860,7 +860,7 @@ def check_property(case, res, orc, fail):
     clis = case.get("_cli")
     server = case.get("_server")
     conf = orc.conf
-    rp = {"case": public(case)}
+    rp = dict({k: v for k, v in case.items() if k.startswith("_")}, case=public(case))
     # 0. the command line reached merge_config as intended
     if clis:
         for i, (r, c) in enumerate(zip(runs, clis)):
